@@ -30,10 +30,15 @@ ASSUMPTIONS = [
 ]
 PROBES = ["dirruns", "inputs_ge_3", "cross_file_var_ref", "stale_output_present", "repeat_run_checked", "enum_runs",
           "fault:non-utf8", "fault:empty", "fault:dir-named-css", "fault:dangling-link", "fault:unserialisable",
-          "fault:eacces", "fault:eio", "fault_first", "fault_middle", "fault_last", "cm_named_input_present",
+          "fault:eacces", "fault:eio", "fault:late-unserialisable", "fault:out-is-dir", "fault:eacces-out",
+          "fault_first", "fault_middle", "fault_last", "cm_named_input_present", "late_fault_defines_props_others_reference",
           "outputs_compared"]
 
-FAULT_KINDS = ("non-utf8", "empty", "dir-named-css", "dangling-link", "unserialisable", "eacces", "eio")
+FAULT_KINDS = ("non-utf8", "empty", "dir-named-css", "dangling-link", "unserialisable", "eacces", "eio",
+               "late-unserialisable", "out-is-dir", "eacces-out")
+# kinds where the faulty file is a well-formed stylesheet that fails LATE (after its custom properties were
+# collected): the place where state of a failed file can leak into the next one
+LATE_KINDS = ("late-unserialisable", "out-is-dir", "eacces-out")
 C18_FEATURES = ("vars", "var-fallback", "var-undefined", "var-chain", "var-shared", "root-direct-color", "root-and-html",
                 "important", "repeat-decl", "nesting", "bg-var", "keywords", "comments", "no-color-rules", "opaque-atrules",
                 "non-ascii")
@@ -64,6 +69,30 @@ def _fault_entry(rng, kind):
     if kind == "unserialisable":
         return {"k": "css", "text": rng.choice(_UNSER), "fault": kind}
     raise ValueError(kind)
+
+
+def _definer_block(rng):
+    c1, c2 = gen.spell(rng, gen.rand_rgb(rng))[0], gen.spell(rng, gen.rand_rgb(rng))[0]
+    imp = rng.choice(("", "", " !important"))
+    sel = rng.choice((":root", ":root", "html"))
+    return "%s{--x-shared:%s%s;--undefined0:%s%s;--c0:%s%s}\n" % (sel, c1, imp, c2, imp, c1, imp)
+
+
+def _late_fault_entry(rng, kind, settings):
+    """A well-formed stylesheet that defines custom properties and fails late."""
+    e = _sheet_entry(rng, settings, True, "L")
+    txt = _definer_block(rng) + e["text"]
+    if kind == "late-unserialisable":
+        txt += rng.choice(("\n}", "\n]", "\n}\n.after{color:#777}"))
+    return {"k": "css", "text": txt, "fault": kind, "defines": True}
+
+
+def _add_xref(rng, entry):
+    v = rng.choice(("var(--x-shared)", "var(--x-shared, #777)", "var(--undefined0, #767676)", "var(--undefined0)", "var(--c0, #6a6a6a)"))
+    entry["ast"]["items"].append({"t": "rule", "sel": ".xref%d" % rng.randrange(100), "decls": [
+        {"p": "color", "v": v, "imp": ""}] + ([{"p": "background-color", "v": "var(--x-shared)", "imp": ""}] if rng.random() < 0.2 else [])})
+    entry["text"] = gen.render(entry["ast"])
+    entry["xref"] = True
 
 
 def _sheet_entry(rng, settings, small, tag):
@@ -129,6 +158,15 @@ def generate(rseed, tier, idx):
             tree[frel] = _sheet_entry(g, base_settings, True, "f")
             tree[frel]["fault"] = kind
             faults = [{"path": "tree/" + frel, "mode": "r", "n": 1, "what": kind}]
+        elif kind in LATE_KINDS:
+            tree[frel] = _late_fault_entry(fr, kind, base_settings)
+            if kind == "out-is-dir":
+                tree[frel[:-4] + "_cm.css"] = {"k": "dir"}
+            elif kind == "eacces-out":
+                faults = [{"path": "tree/" + frel[:-4] + "_cm.css", "mode": "w", "n": 1, "what": "eacces"}]
+            for h in healthy:
+                if not tree[h].get("xref") and g.random() < 0.8:
+                    _add_xref(g, tree[h])
         else:
             tree[frel] = _fault_entry(fr, kind)
         for p in range(len(healthy) + 1):
@@ -152,6 +190,8 @@ def generate(rseed, tier, idx):
                     k = fr.choice(fault_kinds)
                     if k in ("eacces", "eio"):
                         faults.append({"path": "tree/" + rel, "mode": "r", "n": 1, "what": k})
+                    elif k == "eacces-out":
+                        faults.append({"path": "tree/" + rel[:-4] + "_cm.css", "mode": "w", "n": 1, "what": "eacces"})
             tgt = "."
             if g.random() < 0.2 and any(r.startswith("sub/") for r in tree):
                 tgt = "sub"
@@ -164,11 +204,18 @@ def generate(rseed, tier, idx):
                 steps.append({"op": "filerun", "file": g.choice(cands), "settings": base_settings})
         elif m < 0.85:
             # put a fault object (or a fresh healthy sheet) somewhere
-            objs = [k for k in fault_kinds if k not in ("eacces", "eio")]
+            objs = [k for k in fault_kinds if k not in ("eacces", "eio", "eacces-out")]
             if objs and g.random() < 0.7:
                 k = fr.choice(objs)
                 rel = g.choice(_DIRS) + g.choice(("bad.css", "bad2.css", "sub.css") + _NAMES[:3])
-                steps.append({"op": "put", "path": rel, "entry": _fault_entry(fr, k)})
+                if k == "out-is-dir":
+                    cands = sorted(r for r in tree if tree[r].get("ast"))
+                    if cands:
+                        steps.append({"op": "put", "path": g.choice(cands)[:-4] + "_cm.css", "entry": {"k": "dir", "fault": k}})
+                elif k == "late-unserialisable":
+                    steps.append({"op": "put", "path": rel, "entry": _late_fault_entry(fr, k, base_settings)})
+                else:
+                    steps.append({"op": "put", "path": rel, "entry": _fault_entry(fr, k)})
             else:
                 rel = g.choice(_DIRS) + g.choice(_NAMES)
                 steps.append({"op": "put", "path": rel, "entry": _sheet_entry(g, base_settings, True, "n")})
@@ -223,7 +270,8 @@ def _solo(cache, snap, rel, settings, fault, env):
         _put_snap(tdir, name, ent)
         if sib is not None:
             _put_snap(tdir, _out_of(name), sib)
-        faults = [{"path": "tree/" + name, "mode": "r", "n": 1, "what": fault}] if fault else []
+        faults = [{"path": "tree/" + (name if f["which"] == "in" else _out_of(name)), "mode": "r" if f["which"] == "in" else "w",
+                   "n": 1, "what": f["what"]} for f in (fault or ())]
         res = base.in_fork(cli_run.cli_exec, root, "tree/" + name, settings, cwd_rel="cwd", order_key=None,
                            faults=faults, tty=env.get("tty", False), argform="abs", timeout=120)
         after = seams.snapshot(tdir)
@@ -312,7 +360,14 @@ def execute(trace):
                 continue
             before = seams.snapshot(tdir)
             inputs = _inputs(before, target)
-            fault_by_path = {f["path"][5:]: f["what"] for f in st.get("faults", ()) if f["path"].startswith("tree/")}
+            fault_by_path = {}
+            for f in st.get("faults", ()):
+                if f["path"].startswith("tree/"):
+                    pth = f["path"][5:]
+                    if f["mode"] == "w" and pth.endswith("_cm.css"):
+                        fault_by_path.setdefault(pth[:-7] + ".css", []).append({"which": "out", "what": f["what"]})
+                    else:
+                        fault_by_path.setdefault(pth, []).append({"which": "in", "what": f["what"]})
             # expectation per stylesheet from single-file runs
             expect = {}
             for rel in inputs:
@@ -329,6 +384,8 @@ def execute(trace):
             after = seams.snapshot(tdir)
             steps_n += len(res["io"])
             bump("dirruns")
+            if any(trace["tree"].get(r, {}).get("defines") for r in inputs) and any(trace["tree"].get(r, {}).get("xref") for r in inputs):
+                bump("late_fault_defines_props_others_reference")
             if len(inputs) >= 3:
                 bump("inputs_ge_3")
             if len(inputs) >= 2:
@@ -404,6 +461,8 @@ def _entry_fault(trace, st, rel, ent):
     for f in st.get("faults", ()):
         if f["path"] == "tree/" + rel:
             return f["what"]
+        if f["path"] == "tree/" + _out_of(rel) and f["mode"] == "w":
+            return "eacces-out"
     e = trace["tree"].get(rel)
     for s in trace["steps"]:
         if s["op"] == "put" and s["path"] == rel:
